@@ -226,13 +226,13 @@ def _flip(ctx, P):
 
     # the bins are given as one representative per order class; whatever spelling the source uses to test monotonicity
     # is *evaluated* on it (sa.concrete), no condition text is matched
-    from ..concrete import REPRESENTATIVES, truth_hook
+    from ..concrete import REPRESENTATIVES_ALL, truth_hook
 
     res = []
-    for cls in ("increasing", "decreasing"):
-        ev = Evaluator(P, models={"transform:_interp_1d_conservative": m_kernel}, call_hook=truth_hook({"bins": REPRESENTATIVES[cls]}))
+    for cls, vec in [(c, v) for c in ("increasing", "decreasing") for v in REPRESENTATIVES_ALL[c]]:
+        ev = Evaluator(P, models={"transform:_interp_1d_conservative": m_kernel}, call_hook=truth_hook({"bins": vec}))
         try:
-            outs = ev.run_paths(fi, lambda: dict(phi=Obj("ndarray", "phi", (), {"shape": TOP}), theta=Obj("ndarray", "theta"), target_theta_bins=Obj("ndarray", "bins", (), {"ndim": 1})))
+            outs = ev.run_paths(fi, lambda: dict(phi=Obj("ndarray", "phi", (), {"shape": (Lin.sym("cols"), Lin.sym("n")), "ndim": 2}), theta=Obj("ndarray", "theta", (), {"shape": (Lin.sym("cols"), Lin.sym("n") + Lin.of(1)), "ndim": 2}), target_theta_bins=Obj("ndarray", "bins", (), {"ndim": 1})))
         except Unmodelled as e:
             ctx.unknown("R07.1", f"flip discipline ({cls} bins)", str(e))
             return
@@ -398,7 +398,7 @@ def _guards(ctx, P):
         return Obj("DataArray", "RESULT")
 
     mm = dict(da_method_models())
-    mm[("DataArray", "chunk")] = lambda ev, recv, a, k, n: recv
+    mm[("DataArray", "chunk")] = lambda ev, recv, a, k, n: recv.with_eff(("chunk", a[0] if a else dict(k)))
     ev = Evaluator(P, models={"warnings.warn": lambda ev, a, k, n: None, "transform:conservative_interpolation": m_cons, "grid:Grid.interp": m_grid_interp},
                    attr_models=da_attr_models(), method_models=mm)
     AZ = Sym("AZ")
@@ -425,6 +425,11 @@ def _guards(ctx, P):
                     bad = "target_data on cell centres is not interpolated to the cell bounds with boundary='extend' along the transform axis"
                 elif theta.name != "td_on_outer":
                     bad = "the interpolated target_data is not what the kernel receives"
+                else:
+                    # interp leaves chunks along the axis; apply_ufunc(dask='parallelized') needs the core dimension in one chunk
+                    ch = [e[1] for e in theta.eff if e[0] == "chunk"]
+                    if ch and not (isinstance(ch[-1], dict) and ch[-1].get(dimsym("AZ", "outer")) == -1):
+                        bad = f"the interpolated target_data is re-chunked to {ch[-1]!r}; its cell-bound dimension must be one chunk (-1) for the column-wise kernel"
             else:
                 if seen or theta.name != "td":
                     bad = "target_data already on the cell bounds is altered before use"
